@@ -252,6 +252,8 @@ def check_pool(rec):
         # round trip of a two-name signature using pool names
         other = POOL[(POOL.index(name) + 7) % len(POOL)]
         if other != name:
+            check_annotated(rec, ([((name, "center"), (other, "left"))], [((other, "outer"),), ((name, "inner"),)]))
+            check_annotated(rec, ([((name, "center"),)], [((name, "left"),)]))
             sig = ([((name, "center"), (other, "left"))], [((other, "outer"),), ((name, "inner"),)])
             check_wellformed(rec, sig, False, sub="pool-roundtrip")
             check_wellformed(rec, sig, True, sub="pool-roundtrip")
